@@ -206,6 +206,11 @@ class GetDim(Spec):
         return [("dims to reduce", z3.BoolVal(out.value == want))]
 
 
+# the joint model stores (event age, event observed?) as a weighted tensor: that weight is the censoring indicator, not a mask of
+# missing data -- the age of a censored individual IS used (survival term), so it is kept identical in both runs
+NOT_A_MASK = {"event"}
+
+
 class LinkedMaskIndependence(Spec):
     """LinkedVariable.compute of every derived variable of every shipped model graph: if the weighted parents of the two
     runs carry the same weights and agree at weighted positions (plain parents identical), the results agree -- weighted
@@ -230,7 +235,7 @@ class LinkedMaskIndependence(Spec):
 
     def setup(self, cx, cfg):
         cx.assume(z3.And(D.n >= 1, D.v >= 1))
-        kind, kw = D.KINDS[cfg["kind"]]
+        kind, kw = D.ALL_KINDS[cfg["kind"]]
         var = D.model_specs(kind, **kw)[1][cfg["var"]]
         parents = sorted(var.get_ancestors_names())
         m, specs, lay, F, K = D.parent_layouts(cx, cfg["kind"], parents)
@@ -238,7 +243,7 @@ class LinkedMaskIndependence(Spec):
         for p in parents:
             s1[p] = D.fresh_like(cx, lay[p], p + "#1")
             w = D.weight_of(s1[p])
-            if w is not None:
+            if w is not None and p not in NOT_A_MASK:
                 s2[p] = WT(STensor.sym(cx, p + "#2", D.tensor_of(s1[p]).shape_), w)
             else:
                 s2[p] = s1[p]
